@@ -174,6 +174,7 @@ def run_property(pid, tier, seed, repo='/repo', only_deductive=False, timeout=No
     for cf in P.get('case_functions', []):
         cmod = importlib.import_module(cf['module'])
         ctx.flat_mode = bool(getattr(cmod, 'FLAT_MODE', False))
+        ctx.trace_mode = bool(getattr(cmod, 'TRACE_MODE', P.get('trace_mode')))
         if ctx.flat_mode and not getattr(ctx, '_flat_lemmas', False):
             # the addressing facts vf/flat.py hands to the solver are proved from the row-major definition on every run
             ctx._flat_lemmas = True
@@ -214,6 +215,7 @@ def run_property(pid, tier, seed, repo='/repo', only_deductive=False, timeout=No
             if rep['canary_refuted'] is not True and not (rep.get('returns') == 0 and rep.get('raises', 0) > 0):
                 engine_errors.append('canary at the exit of %s not refuted' % rep['function'])
     ctx.flat_mode = False
+    ctx.trace_mode = bool(P.get('trace_mode'))
     for f in P['functions']:
         relpath, qual = f['key'].split('::')
         try:
